@@ -1,6 +1,6 @@
 (* C16 — Generated Spec file names are confined; write and remove are symmetric. *)
 From Coq Require Import String Ascii List Bool.
-From CDI Require Import Base SpecModel Parser ParserProofs Paths PathsProofs Cache CacheProofs.
+From CDI Require Import Base SpecModel Parser ParserProofs Paths PathsProofs CleanProofs Cache CacheProofs.
 Import ListNotations.
 Open Scope string_scope.
 
@@ -35,8 +35,14 @@ Theorem C16_write_path_from_target : forall dirs n,
   write_path dirs n = option_map (fun p => with_default_ext (clean p)) (remove_path dirs n).
 Proof. exact write_path_from_target. Qed.
 Print Assumptions C16_write_path_from_target.
-(* C16_partial: that with_default_ext (clean p) = p for every target path (idempotence of Clean on its own output)
-   is not proved here; it is covered by the correspondence (write then remove on real directories). *)
+(* filepath.Clean is idempotent, for every path; hence the path the writer finally uses (newSpec cleans it and applies the
+   default extension once more) IS the path the remover removes, for every directory list and every name *)
+Theorem C16_clean_idempotent : forall p, clean (clean p) = clean p.
+Proof. exact clean_idempotent. Qed.
+Print Assumptions C16_clean_idempotent.
+Theorem C16_write_path_eq_remove_path : forall dirs n, write_path dirs n = remove_path dirs n.
+Proof. exact write_path_eq_remove_path. Qed.
+Print Assumptions C16_write_path_eq_remove_path.
 
 (* after a refresh the written Spec's devices resolve to it: a file whose priority is the highest of all loaded files
    (it lies in the last configured directory) wins for every device it defines, unless another file of that same
